@@ -181,21 +181,31 @@ Proof.
   - intros H. eexists. split; [exact H|apply list_eqb_eq; reflexivity].
 Qed.
 
-Lemma line_ok_spec : forall allowed l, line_ok allowed l = true <-> (blank_line l \/ starts_with_keyword allowed l).
+(* after the first word, a line holds only braces and keywords (whole words, lower-cased) *)
+Definition only_keywords (allowed : list (list Z)) (l : list Z) : Prop :=
+  forallb (word_ok allowed) (tl (words (strip_cr l))) = true.
+
+Definition line_clean (allowed : list (list Z)) (l : list Z) : Prop :=
+  blank_line l \/ (starts_with_keyword allowed l /\ only_keywords allowed l).
+
+Lemma line_ok_spec : forall allowed l, line_ok allowed l = true <-> line_clean allowed l.
 Proof.
-  intros allowed l. unfold line_ok, blank_line, starts_with_keyword.
+  intros allowed l. unfold line_ok, line_clean, blank_line, starts_with_keyword, only_keywords.
   destruct (strip_cr l) as [|c t] eqn:E.
   - split; [intros _; left; left; reflexivity|reflexivity].
   - destruct (forallb is_ws (c :: t)) eqn:W.
     + split; [intros _; left; right; reflexivity|reflexivity].
-    + split.
+    + rewrite andb_true_iff. split.
       * intros H. right. exact H.
       * intros [[H|H]|H]; [discriminate|discriminate|exact H].
 Qed.
 
+Lemma line_clean_starts : forall allowed l, line_clean allowed l -> blank_line l \/ starts_with_keyword allowed l.
+Proof. intros allowed l [H|[H _]]; [left|right]; exact H. Qed.
+
 Lemma check_keywords_ok_spec : forall allowed conf rs,
   check_keywords allowed conf rs = CK_ok <->
-  forall l, In l (split_lines (strip_values conf rs)) -> blank_line l \/ starts_with_keyword allowed l.
+  forall l, In l (split_lines (strip_values conf rs)) -> line_clean allowed l.
 Proof.
   intros allowed conf rs. unfold check_keywords, check_lines.
   destruct (forallb (line_ok allowed) (split_lines (strip_values conf rs))) eqn:F.
@@ -216,10 +226,12 @@ Definition registry_of (strict : bool) (schema : list (list Z * kind)) (conf : l
 (* whenever a configuration is accepted, every non-blank line of the text that remains after the values
    have been erased begins with a keyword of the schema; contrapositive: a remaining line that begins with
    anything else (a misspelt keyword, a keyword of another context) makes the parser refuse the configuration *)
-Lemma unknown_keyword_rejected : forall strict schema conf vs, schema_ok schema ->
+(* no unknown text: if a configuration is accepted, every line of what remains after the values are erased is blank, or
+   begins with a keyword of the schema AND holds nothing else than braces and keywords of the schema *)
+Lemma no_unknown_text : forall strict schema conf vs, schema_ok schema ->
   parse_flat strict schema conf = PAccept vs ->
   forall l, In l (split_lines (strip_values conf (registry_of strict schema conf))) ->
-            blank_line l \/ starts_with_keyword (schema_keywords schema) l.
+            line_clean (schema_keywords schema) l.
 Proof.
   intros strict schema conf vs Hs H. unfold parse_flat in H.
   set (st0 := {| ps_allowed := []; ps_regs := []; ps_err := false; ps_oof := false; ps_values := [] |}) in *.
@@ -228,3 +240,16 @@ Proof.
   destruct (check_keywords _ _ _) eqn:C; [|discriminate].
   rewrite check_keywords_ok_spec in C. rewrite H2 in C. cbn [ps_allowed st0 app] in C. exact C.
 Qed.
+
+Lemma unknown_keyword_rejected : forall strict schema conf vs, schema_ok schema ->
+  parse_flat strict schema conf = PAccept vs ->
+  forall l, In l (split_lines (strip_values conf (registry_of strict schema conf))) ->
+            blank_line l \/ starts_with_keyword (schema_keywords schema) l.
+Proof.
+  intros strict schema conf vs Hs H l Hl. apply line_clean_starts. exact (no_unknown_text strict schema conf vs Hs H l Hl).
+Qed.
+
+(* the pinned check accepted "k { a } junk": the first word is a keyword, the rest was never looked at *)
+Lemma line_ok_pinned_refuted :
+  exists allowed l, line_ok_pinned allowed l = true /\ line_ok allowed l = false.
+Proof. exists [[107]], [107; 32; 123; 32; 125; 32; 106; 117; 110; 107]. split; vm_compute; reflexivity. Qed.
